@@ -5,6 +5,7 @@ package verifsim
 import (
 	"context"
 	"database/sql"
+	"errors"
 	"fmt"
 	"io"
 	"net"
@@ -85,6 +86,11 @@ type mainWorld struct {
 	witV     note.Verifier
 	events   []string
 	opCfg    omniwitness.OperatorConfig
+
+	storeFault func(call, id string, occ int) error
+	storeMu    sync.Mutex
+	storeOcc   map[string]int
+	storeFired int
 }
 
 func (m *mainWorld) logf(format string, a ...any) {
@@ -158,6 +164,15 @@ func (m *mainWorld) start() error {
 		inst.db = db
 		store = psql.NewPersistence(db)
 	}
+	if m.storeOcc == nil {
+		m.storeOcc = map[string]int{}
+	}
+	store = faultyP{in: store, mu: &m.storeMu, occ: m.storeOcc, fired: &m.storeFired, fault: func(call, id string, occ int) error {
+		if m.storeFault == nil {
+			return nil
+		}
+		return m.storeFault(call, id, occ)
+	}}
 	ctx, cancel := context.WithCancel(context.Background())
 	inst.cancel = cancel
 	cfg := omniwitness.OperatorConfig{WitnessKeys: m.signers, WitnessVerifier: m.witV, FeedInterval: m.interval}
@@ -213,6 +228,54 @@ func (m *mainWorld) cleanup() {
 	if m.dir != "" {
 		os.RemoveAll(m.dir)
 	}
+}
+
+// faultyP injects read errors into the store Main uses. Decisions depend only on (call, log ID, occurrence),
+// never on arrival order, so runs stay deterministic without scheduling the feeder goroutines.
+type faultyP struct {
+	in    persistence.LogStatePersistence
+	mu    *sync.Mutex
+	occ   map[string]int
+	fault func(call, id string, occ int) error
+	fired *int
+}
+
+func (f faultyP) Init() error             { return f.in.Init() }
+func (f faultyP) Logs() ([]string, error) { return f.in.Logs() }
+func (f faultyP) ReadOps(id string) (persistence.LogStateReadOps, error) {
+	return f.in.ReadOps(id)
+}
+func (f faultyP) WriteOps(id string) (persistence.LogStateWriteOps, error) {
+	w, err := f.in.WriteOps(id)
+	if err != nil {
+		return nil, err
+	}
+	return faultyW{w, f, id}, nil
+}
+
+type faultyW struct {
+	persistence.LogStateWriteOps
+	f  faultyP
+	id string
+}
+
+func (w faultyW) GetLatest() ([]byte, error) {
+	w.f.mu.Lock()
+	k := "W.GetLatest/" + w.id
+	n := w.f.occ[k]
+	w.f.occ[k] = n + 1
+	var err error
+	if w.f.fault != nil {
+		err = w.f.fault("W.GetLatest", w.id, n)
+	}
+	if err != nil {
+		*w.f.fired++
+	}
+	w.f.mu.Unlock()
+	if err != nil {
+		return nil, err
+	}
+	return w.LogStateWriteOps.GetLatest()
 }
 
 // ---------------------------------------------------------------- C14
@@ -273,6 +336,15 @@ func c14Exec(t *testing.T, p *Plan) (r *c14Result) {
 		}
 		// observe checks what the running service serves for every log
 		observe := func(why string, requireCaughtUp bool) {
+			if m.inst != nil {
+				select {
+				case err := <-m.inst.done:
+					add("not_caught_up", "main_exited", fmt.Sprintf("%s: omniwitness.Main returned on its own (the service is gone): %v", why, err))
+					m.inst.done <- err
+					return
+				default:
+				}
+			}
 			for i, ld := range w.Logs {
 				code, body, err := m.get("/witness/v0/logs/" + ld.ID + "/checkpoint")
 				st := m.stubs[i]
@@ -408,6 +480,18 @@ func c14Exec(t *testing.T, p *Plan) (r *c14Result) {
 				}
 				st.mu.Unlock()
 				forked[l] = true
+				if op.PV != 0 {
+					// while the log serves the fork, reads of the stored checkpoint inside the update transaction fail
+					// intermittently with a plain (status-less) error, as a busy or failing database would
+					seed, id := op.PV, ld.ID
+					m.storeFault = func(call, lid string, occ int) error {
+						if lid == id && splitmix(seed^uint64(occ)*0x9e3779b9)%2 == 0 {
+							return errors.New("injected: database is locked")
+						}
+						return nil
+					}
+					r.stats.Fired["storage_read_faults_during_fork"]++
+				}
 				r.stats.Fired["log_forked_"+op.M]++
 				m.logf("op %d fork log %d at %d (%s) size %d", oi, l, at, op.M, st.size)
 				settle()
@@ -432,6 +516,7 @@ func c14Exec(t *testing.T, p *Plan) (r *c14Result) {
 		for k, v := range m.sn.Fired {
 			r.stats.Fired[k] += v
 		}
+		r.stats.Fired["storage/W.GetLatest_failed"] += m.storeFired
 		r.stats.SimNanos = int64(time.Since(start))
 		r.events = m.events
 		time.Sleep(2 * time.Minute)
@@ -456,7 +541,7 @@ func init() {
 	register(&Scenario{
 		Prop:  "C14",
 		Level: "exploration",
-		Rule:  "the real omniwitness.Main inside a synctest bubble, configured through ConfigLogs with 1..4 stub logs of the sumdb and tiles feeder types served from the reference tree (every tile path validated by the stub), in-memory or file-backed SQLite storage, the real http.Server on an in-memory listener, simnet as the only outbound network; seeded scripts of growth steps (sizes crossing 255/256/257 and 65535/65536), growth under windows of network faults (drop, 5xx, 404, truncation, corruption, garbage, stall past the client timeout, delay), graceful restarts on the same SQLite file, and finally a fork (larger, same size, smaller); oracle through HTTP GET of the running service: caught up within 3 poll intervals of simulated time once faults stopped, validly cosigned, never backwards across restarts, stays on the witnessed history after a fork, log list consistent; non-trivial = at least one growth crossed a tile boundary or happened under faults, or a restart/fork happened; distinct = distinct (feeder kind, final size) and script shapes",
+		Rule:  "the real omniwitness.Main inside a synctest bubble, configured through ConfigLogs with 1..4 stub logs of the sumdb and tiles feeder types served from the reference tree (every tile path validated by the stub), in-memory or file-backed SQLite storage, the real http.Server on an in-memory listener, simnet as the only outbound network; seeded scripts of growth steps (sizes crossing 255/256/257 and 65535/65536), growth under windows of network faults (drop, 5xx, 404, truncation, corruption, garbage, stall past the client timeout, delay), graceful restarts on the same SQLite file, and finally a fork (larger, same size, smaller), half of the time while reads of the stored checkpoint fail intermittently with a status-less storage error; oracle through HTTP GET of the running service: caught up within 3 poll intervals of simulated time once faults stopped, validly cosigned, never backwards across restarts, stays on the witnessed history after a fork, log list consistent; non-trivial = at least one growth crossed a tile boundary or happened under faults, or a restart/fork happened; distinct = distinct (feeder kind, final size) and script shapes",
 		Gen: func(r *Rng, tier string, n uint64) *Plan {
 			p := &Plan{Scenario: "main"}
 			nl := r.Range(1, 4)
@@ -489,7 +574,11 @@ func init() {
 				}
 			}
 			if r.Chance(0.7) {
-				p.Ops = append(p.Ops, Op{K: "fork", L: r.IntN(nl), M: Pick(r, "larger", "larger", "same", "smaller"), MV: r.Uint64(), D: uint64(r.IntN(300))})
+				fo := Op{K: "fork", L: r.IntN(nl), M: Pick(r, "larger", "larger", "same", "smaller"), MV: r.Uint64(), D: uint64(r.IntN(300))}
+				if r.Chance(0.5) {
+					fo.PV = 1 + r.Uint64()%1000000
+				}
+				p.Ops = append(p.Ops, fo)
 			}
 			return p
 		},
